@@ -103,6 +103,10 @@ BY_TYPE = {"num": NUM, "str": STR, "lst": LST, "fun": FUN, "any": ANY}
 
 
 def args_for(typetuple):
+    if "fun" in typetuple:
+        # higher-order overloads mostly work over lists: bias the untyped companions towards (nested) lists
+        by = dict(BY_TYPE, any=st.one_of(LST, LST, LST, NUM, STR))
+        return st.tuples(*[by[t] for t in typetuple])
     return st.tuples(*[BY_TYPE[t] for t in typetuple])
 
 
